@@ -155,6 +155,9 @@ func TestProp_Routing(t *testing.T) {
 		eof := map[int]bool{}
 		var emu sync.Mutex
 		nameAlphabet := append([]string{"h2", "__AUTH__", "__UNAUTH__", "zeta"}, specific...)
+		// names that merely resemble registered ones: a registered name plus a suffix, a
+		// registered name cut short, another case (a sub-listener is found by its exact name)
+		nameAlphabet = append(nameAlphabet, "alpha-admin", "alpha2", "alph", "beta/v2", "bet", "Gamma", "gamma ", "__AUTH__x", "__UNAUTH__2")
 		// the consumer of one specific sub-listener may close it while everything else
 		// goes on; clients offering OTHER registered names are routed as before (what
 		// happens to clients offering the closed name is not specified: not judged)
